@@ -223,6 +223,8 @@ def h_again(ctx):
     n = ctx.choose("length", [0, 1, 100, 70000])
     between = ctx.choose("between", ["nothing", "add-recipient"] if cls_name.startswith("General") else ["nothing"])
     times = ctx.choose("serializations", [2, 3])
+    # the plaintext may be a buffer the caller owns and refills between two serializations
+    held = ctx.choose("plaintext_held_as", ["bytes", "bytearray refilled in place"])
     pt = gen("period259", n)
     from joserfc.jwk import KeySet
     k1, k2 = A.jkey({**scen.key("oct16", 1), "kid": "k1"}, "dict"), A.jkey({**scen.key("oct16", 2), "kid": "k2"}, "dict")
@@ -231,10 +233,11 @@ def h_again(ctx):
     if zipv:
         prot["zip"] = zipv
     algs = ["A128KW", enc, "DEF"]
-    obj = getattr(jwe, cls_name)(prot, pt)
+    buf = bytearray(pt)
+    obj = getattr(jwe, cls_name)(prot, pt if held == "bytes" else (buf if held.startswith("bytearray") else memoryview(buf)))
     obj.add_recipient({"alg": "A128KW", "kid": "k1"}, k1)
     vs = []
-    what = f"{cls_name} enc={enc} zip={zipv} plaintext of {n} octets"
+    what = f"{cls_name} enc={enc} zip={zipv} plaintext of {n} octets held as {held}"
     for i in range(times):
         r = call(jwe.encrypt_json, obj, None, algorithms=algs)
         if not r.ok:
@@ -251,9 +254,19 @@ def h_again(ctx):
             vs.append(viol(f"serialization #{i + 1} of one encryption object does not round-trip", f"{what}: {d.exc!r} {str(d.value)[:60]!r}"))
         if bytes(obj.plaintext or b"") != pt:
             vs.append(viol("encryption alters the plaintext held by the caller's object", f"{what}: after serialization #{i + 1} it holds {len(obj.plaintext or b'')} octets"))
+        if held != "bytes" and n:
+            pt = bytes((x + 1 + i) % 256 for x in pt)       # the caller refills its buffer: the next serialization carries the new content
+            buf[:] = pt
         if between == "add-recipient" and i == 0:
             obj.add_recipient({"alg": "A128KW", "kid": "k2"}, k2)
-    return Outcome(f"again:{'ok' if not vs else 'bad'}", vs, nontrivial=(cls_name, enc, zipv, n, between, times))
+    return Outcome(f"again:{'ok' if not vs else 'bad'}", vs, nontrivial=(cls_name, enc, zipv, n, between, times, held))
+
+
+def h_after_rejected(ctx):
+    """An authentic zip=DEF token whose stream goes wrong after 0 .. 70 KiB of output (or a bomb) is rejected; the honest compressed tokens
+    that follow in the same process round-trip exactly (the sequences of C02, judged here for the DEFLATE clause)."""
+    from . import c02
+    return c02.h_sequences(ctx)
 
 
 _pa = Part("same-object-serialized-again", h_again, split_depth=2)
@@ -263,4 +276,5 @@ PARTS = [
     Part("foreign-streams", h_foreign, split_depth=3, budget={"quick": 1200, "thorough": 1800}),
     Part("limit-reached-at-input-offsets", h_aligned, split_depth=2, budget={"quick": 1200, "thorough": 1800}),
     _pa,
+    Part("decryptions-after-a-rejected-stream", h_after_rejected, split_depth=3),
 ]
